@@ -1,7 +1,7 @@
 """C11 — results can be fed back in: chained operations obey Boolean algebra."""
 from . import relprops, relrun
 LEVEL = 'proof'
-W = {'rect': 0.3, 'oct': 0.45, 'share': 0.1, 'lat': 0.05, 'gp': 0.1, 'abut': 0.2, 'punch': 0.08, 'frameslab': 0.15}
+W = {'rect': 0.3, 'oct': 0.45, 'share': 0.1, 'lat': 0.05, 'gp': 0.1, 'abut': 0.2, 'punch': 0.08, 'frameslab': 0.15, 'toptip': 0.2}
 
 
 def run(rep, tier, seed):
